@@ -211,6 +211,24 @@ def one_case(ctx, a, b, c):
                                   {'total': dd(total), 'allocated': dd(alloc), 'field': f, 'free': getattr(fc, f)})
                     break
             str(fc)
+            # the free-capacity view itself reached through a copy (an object holding it copied or pickled): the same fields
+            ctx.count('law:copy-of-a-free-capacity')
+            import copy as _copy
+            import pickle as _pickle
+            for how, mk in (('copy', _copy.copy), ('deepcopy', _copy.deepcopy), ('pickle', lambda x: _pickle.loads(_pickle.dumps(x)))):
+                try:
+                    fc2 = mk(fc)
+                    same = all(getattr(fc2, f) == getattr(fc, f) for f in F) and str(fc2) == str(fc)
+                except BaseException as e:
+                    if not isinstance(e, Exception) and not isinstance(e, RecursionError):
+                        raise
+                    ctx.violation(f'C15/copy-of-a-free-capacity-raises:{how}', 'free = total - allocated is a value: a copy of it can be made, '
+                                  f'not {type(e).__name__}', {'total': dd(total), 'allocated': dd(alloc)})
+                    break
+                if not same:
+                    ctx.violation(f'C15/copy-of-a-free-capacity-differs:{how}', 'a copy of a free-capacity view has the same fields',
+                                  {'total': dd(total), 'allocated': dd(alloc)})
+                    break
         fc = FreeCapacity(total=a, allocated=None)
         if any(getattr(fc, f) != A[f] for f in F):
             ctx.violation('C15/free-none-allocated', 'free == total when nothing allocated', w)
